@@ -46,5 +46,9 @@ func (m Meter) validate() error {
 	if m.Num > maxMeterValue || m.Denom > maxMeterValue {
 		return errorx.Invalid("Meter should be up to %d/%d", maxMeterValue, maxMeterValue)
 	}
+	if m.Denom&(m.Denom-1) != 0 {
+		// a MIDI time signature carries the exponent of the denominator only
+		return errorx.Invalid("Meter should have a power of two as denominator")
+	}
 	return nil
 }
